@@ -46,7 +46,8 @@ TIME_POOL = [1325376000, 1325376000 + 6 * 3600, 1325462400, 1327968000, 13280544
              86400 * 365, 1330300800, 1330300800 + 1800]
 LEAD_POOL = [0.0, 1.0, 1.5, 3.0, 6.0, 12.0, 23.0, 24.0, 25.5, 47.999, 48.0, 72.0]
 LOC_POOL = [(1, 60.0, 10.0, 100.0), (2, 60.5, 10.5, 0.0), (7, 59.0, -120.0, 250.0), (18, -33.5, 151.25, 12.0),
-            (41, 60.0, 10.0, 100.0), (3, 89.0, 179.0, 2500.0), (100, 0.0, 0.0, -5.0)]
+            (41, 60.0, 10.0, 100.0), (3, 89.0, 179.0, 2500.0), (100, 0.0, 0.0, -5.0),
+            (55, 45.0, 200.5, 30.0), (56, -10.0, 359.0, 5.0)]          # longitudes in the 0..360 convention
 FIELDS = ["obs", "fcst", "pit", "other0"]
 
 
